@@ -18,6 +18,22 @@ T = {
  'C19-A': ('C19', 'ReusableArenaAllocator::ownsObject(): the block where the forward scan stopped is never examined', 'at least 10 result tree fragments alive at the same time (arena block size): a fragment is reported as not owned and deleted with the global delete (manager memory freed elsewhere, members freed twice)'),
  'C19-B': ('C19', 'XObjectFactoryDefault::doReturnObject(): cache test size() > max instead of >=', 'more than 40 numbers/strings alive and released back to back (recursion deeper than 40) AND the one allocation that grows the cache inside ~XObjectPtr is the refused one: std::terminate'),
  'C20-A': ('C20', 'XalanVector range insert: tail shifted with std::copy instead of std::copy_backward', 'range insert in the middle without reallocation, more than 2n elements to the right, element type not trivially copyable'),
+ 'C03-C': ('C03', 'XalanParsedURI::resolve(): the shared helper that steps back one path segment decrements the index without the index > 0 guard', 'a relative reference starting with ../ (xsl:include/import/document()/PI href) resolved against a base URI that has a scheme but no "/" in its path (file:main.xsl, urn:..., http://host): index wraps, erase() in front of the buffer, SIGSEGV'),
+ 'C03-D': ('C03', 'NodeSorter::sort(): the RAII guards that clear the sort-key caches replaced by clear() calls after stable_sort', 'a transformation failing with a run-time error during sort-key evaluation after at least one key was cached, then a valid sort on the same transformer: stale keys (wrong order / out-of-bounds read)'),
+ 'C04-C': ('C04', 'XalanOutputStream::transcode(): the second pass continues at the offset of source units eaten instead of bytes filled', 'a chunk needing more than two output bytes per UTF-16 unit (GB18030 with Arabic/Hebrew/Thai, UTF-32, legacy FormatterToXML writing UTF-8 CJK): overwritten tail, NUL bytes, not well-formed'),
+ 'C04-D': ('C04', 'FormatterToXMLUnicode::writeCharacters(): ">" escaped only when the two previous characters of the same characters() call are "]]"', 'one text node delivered in two events that split "]]>" (e.g. two xsl:value-of): literal "]]>" in content; the two serializers disagree'),
+ 'C05-C': ('C05', 'XercesDOMParsedSource stores the system id un-normalised', 'parseSource(useXercesDOM) with a plain relative path as system id and a document() call that resolves to the source itself: the source is parsed a second time (node identity lost)'),
+ 'C05-D': ('C05', 'ICUFormatNumberFunctor: decimal-format cache hit by the address of the symbols object', 'two stylesheets given as input sources with different xsl:decimal-format symbols, one after the other on one transformer: the second formats with the first one\'s symbols (compiled stylesheets kept alive are fine)'),
+ 'C06-C': ('C06', 'NodeSorter::sort(): sort-key caches no longer cleared when key evaluation throws (same mechanism as C03-D, written independently)', 'abort during xsl:sort key evaluation, later sort on the same transformer'),
+ 'C06-D': ('C06', 'ICUFormatNumberFunctor: decimal-format cache hit by address (same mechanism as C05-D, written independently)', 'stylesheet with xsl:decimal-format destroyed, a different one compiled at the same address'),
+ 'C07-C': ('C07', 'Stylesheet::getDecimalFormatSymbols(): last found xsl:decimal-format remembered in a mutable pointer of the shared stylesheet', 'concurrent transformations calling format-number() with decimal formats of one shared compiled stylesheet'),
+ 'C07-D': ('C07', 'XercesDocumentWrapper::getElementById(): last node and wrapper remembered in mutable members', 'a thread-safe Xerces-DOM wrapper source with DTD ids shared by overlapping transformations that call id()'),
+ 'C17-C': ('C17', 'CountersTable::reset() no longer clears m_newFound (same mechanism as C06-A, written independently)', 'a numbering transformation failing inside countNode() (count pattern calling an unavailable function at one node), then numbering the same kept parsed source on the same transformer'),
+ 'C17-D': ('C17', 'ElemNumber::int2alphaCount(): the carry correction tests the new value instead of the previous column\'s', 'format token A or a with a number whose borrow ripples through two columns (676, 1352, ...)'),
+ 'C19-C': ('C19', 'XalanTransformer::installExternalFunction(): the replace path destroys the installed clone before cloning the new function', 'install a function, install again under the same name, and the clone() allocation of the second call is the refused one: dangling pointer in the function map (use after free / double free)'),
+ 'C19-D': ('C19', 'XercesDocumentWrapper::createWrapperNode(DocumentType): the wrapper is registered for deletion only when node mapping is on', 'parseSource(useXercesDOM) / Xerces wrapper with a document that has a DOCTYPE: one block per document never returned to the manager'),
+ 'C20-C': ('C20', 'XalanDOMString::append(const XalanDOMChar*, n): the "no buffer" branch taken for every empty string', 'a string emptied by an operation that keeps the terminator (resize(0), erase to nothing, ...) and then appended to through a XalanDOMChar*-based form'),
+ 'C20-D': ('C20', 'XalanList::splice(pos, list, it): pos.prev cached before unlinking', 'single-element splice within one list with pos == next(element) (a no-op in std::list): node orphaned, backward traversal loops'),
  'C20-B': ('C20', 'XalanMap::doCreateEntry(): the catch block no longer marks the recycled entry erased', 'a key erased recently (slot still in its bucket), re-insert into the same bucket, bucket vector full, bucket-growth allocation refused: find() returns a dead entry'),
 }
 for name, (prop, change, needs) in sorted(T.items()):
